@@ -3,6 +3,7 @@ package main
 // Path exploration by re-execution under decision prefixes; obligations; results.
 
 import (
+	"os"
 	"fmt"
 	"go/token"
 	"sort"
@@ -294,6 +295,7 @@ func (j *Job) runPath(tc *TermCtx, sv *Solvers, prefix []int64) {
 
 // runHarness executes the harness on one path; returns how the path ended.
 func (ex *Exec) runHarness(fn *ssa.Function) (end string, msg string) {
+	defer ex.killCoros()
 	defer func() {
 		r := recover()
 		if r == nil {
@@ -432,6 +434,8 @@ func (ex *Exec) slice(extra *Term) []*Term {
 }
 
 // fork decides a symbolic branch condition.
+var forkDebug = os.Getenv("GOSYM_FORKDBG") != ""
+
 func (ex *Exec) fork(c *Term) bool {
 	if ex.initMode {
 		panic("symbolic branch during package initialisation")
@@ -507,6 +511,9 @@ func (ex *Exec) forkValue(t *Term, what string) int64 {
 		ex.abort("infeasible", "no feasible value for %s", what)
 	}
 	sort.Slice(vals, func(i, k int) bool { return vals[i] < vals[k] })
+	if forkDebug {
+		fmt.Fprintf(os.Stderr, "FORKVALUE %d values: %s at %s\n%s\n", len(vals), what, ex.posStr(ex.curPos), ex.stackStr())
+	}
 	for _, v := range vals[1:] {
 		ex.pushAlt(int64(v))
 	}
